@@ -398,9 +398,94 @@ func runConc(a []string) {
 			fmt.Fprintln(out, "=", concRun(dir, atoi(f[1]), int(atoi(f[2])), int(atoi(f[3])), f[4]))
 		case "cpause":
 			fmt.Fprintln(out, "=", concPause(dir, f[1:]))
+		case "cstress":
+			fmt.Fprintln(out, "=", concStress(dir, int(atoi(f[1])), int(atoi(f[2]))))
 		}
 		out.Flush()
 	}
+}
+
+// cstress <iterations> <ms>: the start of a log's life under load - on a fresh directory one goroutine publishes
+// single messages, one consumes with the cursor fed back, one deletes the oldest 32 messages over and over
+// (all of them in the writing segment at first).  No call may fail.
+func concStress(dir string, iters, ms int) string {
+	for it := 0; it < iters; it++ {
+		os.RemoveAll(dir)
+		os.MkdirAll(dir, 0700)
+		l, err := klevdb.Open(dir, klevdb.Options{AutoSync: it%2 == 0, Rollover: 64 * 1024})
+		if err != nil {
+			return "err open " + errClass(err)
+		}
+		var stop atomic.Bool
+		done := make(chan string, 3)
+		go func() {
+			for i := 0; !stop.Load(); i++ {
+				if _, err := l.Publish([]klevdb.Message{{Key: []byte(fmt.Sprintf("%010d", i))}}); err != nil {
+					done <- "Publish: " + errClass(err) + ": " + err.Error()
+					return
+				}
+			}
+			done <- ""
+		}()
+		go func() {
+			off := klevdb.OffsetOldest
+			for !stop.Load() {
+				next, _, err := l.Consume(off, 32)
+				if err != nil && !errors.Is(err, klevdb.ErrNotFound) {
+					done <- fmt.Sprintf("Consume(%d): %s: %s", off, errClass(err), err.Error())
+					return
+				}
+				if err != nil || off == next {
+					off = klevdb.OffsetOldest
+					continue
+				}
+				off = next
+			}
+			done <- ""
+		}()
+		go func() {
+			for !stop.Load() {
+				_, msgs, err := l.Consume(klevdb.OffsetOldest, 32)
+				if err != nil {
+					done <- "Consume(oldest): " + errClass(err) + ": " + err.Error()
+					return
+				}
+				del := map[int64]struct{}{}
+				for _, m := range msgs {
+					del[m.Offset] = struct{}{}
+				}
+				if _, _, err := l.Delete(del); err != nil {
+					done <- fmt.Sprintf("Delete(%d oldest): %s: %s", len(del), errClass(err), err.Error())
+					return
+				}
+			}
+			done <- ""
+		}()
+		first := ""
+		select {
+		case first = <-done:
+		case <-time.After(time.Duration(ms) * time.Millisecond):
+		}
+		stop.Store(true)
+		for k := 0; k < 3; k++ {
+			if first == "" {
+				select {
+				case r := <-done:
+					first = r
+				case <-time.After(5 * time.Second):
+					first = "Hang"
+				}
+			} else {
+				break
+			}
+		}
+		time.Sleep(20 * time.Millisecond)
+		l.Close()
+		if first != "" {
+			return fmt.Sprintf("err CallFailed iteration=%d %s", it, strings.ReplaceAll(first, "\n", " "))
+		}
+	}
+	return fmt.Sprintf("ok ops=%d linearizable (stress: no call failed)", iters)
 }
 
 var _ = errors.New
